@@ -135,6 +135,19 @@ Definition sem_verdict (c : semcase) : Z :=
     end
   end%Z.
 
+(* the rows the reference interpreter answers to one statement of a PromQL engine run (harness promeng):
+   code 0 ok, 1 the parse does not render back to the text, 2 no value *)
+Definition engine_rows (impl : select) (text : string) (db : database) (search : list (string * string * bool)) : Z * list row :=
+  match render impl false with
+  | None => (1%Z, [])
+  | Some t =>
+    if negb (String.eqb t text) then (1%Z, [])
+    else match eval_prom (tbl_lookup search) impl db with
+         | None => (2%Z, [])
+         | Some rows => (0%Z, rows)
+         end
+  end.
+
 (* the Select loop's model decision for MapResult *)
 Definition querier_mr (cluster : bool) (h : hints) (ms : list matcher) : bool := snd (querier_transpile cluster "qryn" h ms).
 
